@@ -78,6 +78,7 @@ Eff(op, t) ==
          ELSE Ok([WithParents(t, q) EXCEPT ![q] = t[p], ![p] = Absent], "true")
 Trees == { t \in [Paths -> {Absent, Dir} \cup {File(c) : c \in Contents}] : Consistent(t) /\ \A p \in FilePaths : t[p].k # "dir" }
 Ops == { [cmd |-> c, a |-> <<p, "x">>] : c \in {"writefile", "appendfile", "write_binary"}, p \in Paths }
+   \cup { [cmd |-> c, a |-> <<p, "">>] : c \in {"writefile", "appendfile"}, p \in Paths }        \* empty content still creates / truncates
    \cup { [cmd |-> c, a |-> <<p>>] : c \in {"touch", "mkdir", "rm", "rmdir", "readfile", "read_binary", "is_path_exists", "is_file", "is_dir", "get_file_size", "ls", "basename", "dirname"}, p \in Paths }
    \cup { [cmd |-> "rm", a |-> <<"-r", p>>] : p \in Paths }
    \cup { [cmd |-> c, a |-> <<p, q>>] : c \in {"cp", "mv"}, p \in Sources, q \in Paths }
